@@ -65,7 +65,13 @@ class Unit:
         for m in re.finditer(r'(?m)^(?:pub(?:\([a-z]+\))?\s+)?const\s+[A-Z][A-Z0-9_]*\s*:', s.code):
             a, b = s.item_span(re.escape(m.group(0)), lo=m.start(), hi=None)
             origin = '%s:%d-%d' % (rel, s.line_of(a), s.line_of(b - 1))
-            self.chunks.append(('code', origin, s.text[a:b]))
+            text = s.text[a:b]
+            cm = re.search(r'const\s+([A-Z][A-Z0-9_]*)\s*:\s*([^=]+?)\s*=\s*(.*);\s*$', text, re.S)
+            if cm and '(' in cm.group(3):
+                # initialiser calls a function: an exec-only constant whose value the verifier does not know
+                text = text[:cm.start()] + 'exec const %s: %s = %s;' % (cm.group(1), cm.group(2), cm.group(3))
+                self.rule_hits.append(('R40:exec-const:' + cm.group(1), 1))
+            self.chunks.append(('code', origin, text))
             n += 1
         if n == 0:
             raise ExtractError('%s: no module-level const items' % rel)
